@@ -9,7 +9,7 @@ DESCRIPTION = {
     "level": "exploration",
     "rule": ("(a) server: Hypothesis builds valid RFC 6455 requests from a grammar (target, Host forms, token lists in any case, 16-byte base64 key, version from the configured "
              "list, optional Origin/subprotocols/extension offers/extra headers, header order and name case shuffled) against a drawn server configuration (versions, "
-             "allowedOrigins wildcards, allowNullOrigin, maxConnections with n open connections, externalPort, subprotocol chosen by onConnect, webStatus) and removes / "
+             "allowedOrigins wildcards, allowNullOrigin, maxConnections with n open connections (and, as a history on one factory: peers connecting, being admitted or refused, and going away), externalPort, subprotocol chosen by onConnect, webStatus) and removes / "
              "corrupts / duplicates exactly one required element; origins are generated adjacent to each allowed pattern (suffix/prefix extension, other scheme/port, null). "
              "(b) client: the harness answers the client's real request with the correct 101 for its key and corrupts exactly one element. (c) URLs (IPv6 hosts, ports, percent-escapes in path and query) -> request target exactly as written / Host. "
              "(d) arbitrary, truncated, oversized, non-ASCII and mutated octets into both roles under several segmentations. (e) library client x library server over "
@@ -31,6 +31,7 @@ def plan(tier, seed):
         for sh in range(2 if q else 6):
             jobs.append({"func": "server_side", "fw": fw, "name": "server/%s/%d" % (fw, sh), "args": {"seed": seed * 1000 + i * 100 + sh, "n": 350 if q else 3000}})
             jobs.append({"func": "client_side", "fw": fw, "name": "client/%s/%d" % (fw, sh), "args": {"seed": seed * 1000 + i * 100 + 20 + sh, "n": 300 if q else 3000}})
+        jobs.append({"func": "connlimit", "fw": fw, "name": "connlimit/%s" % fw, "args": {"seed": seed * 1000 + i * 100 + 45, "n": 150 if q else 1500}})
         jobs.append({"func": "robustness", "fw": fw, "name": "robust/%s" % fw, "args": {"seed": seed * 1000 + i * 100 + 40, "n": 500 if q else 6000}})
         if not q:
             for sh in range(2):
@@ -567,6 +568,71 @@ def urls(col, seed, n):
     run_hypothesis(col, "url", strat, body, n, seed)
 
 
+# ---------------------------------------------------------------- (c') connection limit over a history of connections
+
+def connlimit_one(c):
+    """one server factory with maxConnections=N; a history of peers connecting (valid or invalid handshake) and of established/rejected connections going away.
+    A valid handshake is completed iff fewer than N connections are established at that moment."""
+    from harness import drv, wsutil
+    d = drv.get_driver()
+    try:
+        side = wsutil.server(d, opts={"maxConnections": c["limit"], "openHandshakeTimeout": 0, "closeHandshakeTimeout": 0})
+        established = []
+        for k, op in enumerate(c["ops"]):
+            if op[0] == "connect":
+                ep = d.connect(side.factory, peer=("127.0.0.1", 40000 + k))
+                ep.feed(wsutil.raw_request() if op[1] == "valid" else wsutil.raw_request(version=99))
+                d.settle()
+                out = ep.take()
+                status = out.split(b" ", 2)[1] if out.startswith(b"HTTP/1.1 ") and out.count(b" ") >= 2 else None
+                if ep.escaped or d.loop_errors:
+                    raise Violation("C07|connlimit|exception-escaped", repr((ep.escaped or d.loop_errors)[0])[:300], c)
+                if op[1] == "valid":
+                    room = len(established) < c["limit"]
+                    if room and status != b"101":
+                        raise Violation("C07|connlimit|refused-below-limit", "op #%d: %d established, limit %d, response %r" % (k, len(established), c["limit"], out[:60]), c)
+                    if not room and status == b"101":
+                        raise Violation("C07|connlimit|admitted-above-limit", "op #%d: %d connections established, limit %d, yet the handshake was completed" % (k, len(established), c["limit"]), c)
+                elif status == b"101":
+                    raise Violation("C07|connlimit|invalid-handshake-admitted", repr(out[:60]), c)
+                if status == b"101":
+                    established.append(ep)
+                else:
+                    if not ep.drop_requested:
+                        raise Violation("C07|connlimit|rejected-connection-not-dropped", "op #%d response %r" % (k, out[:60]), c)
+                    ep.deliver_loss("done")     # the refused connection goes away
+                    d.settle()
+            elif established:
+                ep = established.pop(op[1] % len(established))
+                ep.deliver_loss("lost")
+                d.settle()
+        return len(established)
+    finally:
+        d.close()
+
+
+def connlimit(col, seed, n):
+    from hypothesis import strategies as st
+    strat = st.fixed_dictionaries({"limit": st.integers(1, 3), "ops": st.lists(st.one_of(
+        st.tuples(st.just("connect"), st.sampled_from(["valid", "valid", "valid", "invalid"])), st.tuples(st.just("close"), st.integers(0, 8))), min_size=2, max_size=14)})
+
+    def body(c):
+        case = dict(c, check="connlimit")
+        connlimit_one(case)
+        rejected = 0
+        est = 0
+        for op in c["ops"]:
+            if op[0] == "connect" and op[1] == "valid":
+                if est >= c["limit"]:
+                    rejected += 1
+                else:
+                    est += 1
+            elif op[0] == "close" and est:
+                est -= 1
+        col.case(rejected >= 1, dig=c, cls=["connlimit/limit:%d" % c["limit"]] + (["connlimit/rejection-then-more-connects"] if rejected >= 1 else []), sample=c)
+    run_hypothesis(col, "connlimit", strat, body, n, seed)
+
+
 # ---------------------------------------------------------------- (d) robustness
 
 def robust_one(col, role, data, split, webstatus, judge_client_open=True):
@@ -718,6 +784,9 @@ def replay(col, case):
             raise Violation("C07|client|exception-escaped|%s|%s" % (c["mut"], exc_key(e) if isinstance(e, Exception) else "loop"), repr(e)[:300], c)
         if c["mut"] not in ("none", "non-utf8-header", "non-utf8-reason") and obs["opened"]:
             raise Violation("C07|client|invalid-response-admitted|" + c["mut"], "", c)
+    elif kind == "connlimit":
+        c["ops"] = [tuple(o) for o in c["ops"]]
+        connlimit_one(c)
     elif kind == "robust":
         robust_one(col, c["role"], c["data"], c.get("split", "one"), c.get("webstatus", True), judge_client_open=c.get("judge_client_open", True))
         return
